@@ -35,11 +35,14 @@ CELLS = [
     ("ins-bimodal", "ins", "Bi2", {"nlive": 500, "min_samples": 100}),
     ("std-constrained-prior", "std", "G2c", {}),
     ("ins-constrained-prior", "ins", "G2c", {"nlive": 500, "min_samples": 100}),
+    # likelihood exactly zero (log L = -inf) over 82 % of the prior: a legitimate input (nessai only warns)
+    ("std-hard-cut", "std", "G2h", {}),
+    ("ins-hard-cut", "ins", "G2h", {"nlive": 500, "min_samples": 100}),
     ("std-flat-direction-prime-prior", "std", "G2f", {"reparameterisations": {"x0": {"reparameterisation": "rescaletobounds", "rescale_bounds": [0.0, 1.0], "prior": "uniform"},
                                                                               "x1": {"reparameterisation": "rescaletobounds", "rescale_bounds": [0.0, 1.0], "prior": "uniform"}}}),
 ]
 QUICK = ["std-default", "std-no-uninformed", "std-analytic-nonuniform", "std-augmented", "std-maf-logit-t", "std-narrow-prior-box-draws", "ins-default", "ins-strict-nonuniform", "ins-no-iid",
-         "ins-constrained-prior", "std-augmented-4-dims", "std-nball"]
+         "ins-constrained-prior", "std-augmented-4-dims", "std-nball", "std-hard-cut", "ins-hard-cut"]
 
 
 def calib_worker(case):
@@ -214,6 +217,10 @@ def main():
                     (rule == "mean-error-incompatible-with-zero" and detail["mean_error"] > 0) or rule in ("posterior-variance-off", "posterior-mean-off")):
                 # mechanism, not cell name: importance sampler + a region of zero prior density inside the unit hypercube + evidence too large
                 key = "C06:ins:zero-prior-region-inside-unit-hypercube:evidence-biased-upward"
+            if sampler == "std" and getattr(zoo.make(model_name), "zero_likelihood_prior_fraction", 0) > 0 and rule == "mean-error-incompatible-with-zero" and detail["mean_error"] > 0:
+                # mechanism: standard sampler + a region of the prior where the likelihood is exactly zero + evidence too large (the initial live set is redrawn until every
+                # point has a finite log-likelihood, i.e. it is drawn from the prior restricted to L > 0 but integrated as if it covered the whole prior)
+                key = "C06:std:zero-likelihood-region:initial-live-points-redrawn-until-finite:evidence-biased-upward"
             chk.violation(key, f"cell {nm} ({sampler}, {model_name}, {kw}) over {len(good)} seeds (failed in two independent rounds): {detail}; summary {summ}",
                           dict(cell=nm))
     chk.extra["cells"] = summaries
